@@ -1204,6 +1204,80 @@ pub fn arb_crud_case(max_ops: usize) -> impl Strategy<Value = CrudCase> {
     })
 }
 
+// ---------------------------------------------------------------------------
+// export policy as the session's export pipeline applies it (process_nlri_change hands the
+// policy its local / peer addresses, in the non-Add-Path and in the Add-Path branch)
+// ---------------------------------------------------------------------------
+
+pub const GLUE_RULE: &str = "export-glue: one path learned from an eBGP peer, an eBGP receiver (its address inside or outside the policy's neighbour sets, Add-Path send or not) and an export policy {statement 1: neighbour-set condition (ANY / INVERT) -> reject; statement 2: accept with a next-hop action address / self / peer-address / unchanged}, through the daemon's process_nlri_change. Expected: the route is advertised iff the RECEIVER's address does not satisfy statement 1; the advertised next hop is the given address, the local address of the session (self, and the eBGP default without an action), the receiver's address (peer-address) or the received one (unchanged). non-trivial := the receiver has Add-Path send";
+
+#[derive(Clone, Debug, Serialize, Deserialize)]
+pub struct GlueCase {
+    pub receiver: u8,
+    pub addpath: bool,
+    pub set: u8,
+    pub invert: bool,
+    pub nh_action: Option<(u8, u8)>,
+}
+
+pub fn check_glue(c: &GlueCase) -> CheckResult {
+    use crate::event::verif::{NeighborParams, export_once};
+    // addresses: local = peer_ip(0), receivers peer_ip(1) / peer_ip(3), source peer_ip(2)
+    let local = peer_ip(0);
+    let receiver = if c.receiver % 2 == 0 { peer_ip(1) } else { peer_ip(3) };
+    let prog = Program {
+        prefix_sets: vec![vec![(1, 8, 32)]],
+        // set 0 = {receiver peer_ip(1)}, set 1 = {the local address}, set 2 = {the source}
+        neighbor_sets: vec![vec![1], vec![0], vec![2]],
+        aspath_sets: vec![vec![AsPat::Include(1)]],
+        comm_sets: vec![vec![CommPat::Exact(1)]],
+        ext_sets: vec![vec![1]],
+        large_sets: vec![vec![(1, 2, 3)]],
+        stmts: vec![Stmt { conds: vec![Cond::NeighborSet(c.set % 3, if c.invert { Opt::Invert } else { Opt::Any })], disp: Some(false), act: Act::default() }, Stmt { conds: vec![], disp: Some(true), act: Act { nexthop: c.nh_action, ..Act::default() } }],
+        policies: vec![vec![0, 1]],
+        assign: vec![0],
+        default_accept: true,
+        export: true,
+        is_confed: false,
+    };
+    let (_t, policy) = load(&prog).map_err(|e| Failure::new("harness", format!("policy load: {e}")))?;
+    let source = Arc::new(table::Source::new(peer_ip(2), local, 65102, 65000, Ipv4Addr::new(2, 2, 2, 2), table::PeerRole::Ebgp));
+    let attrs = Arc::new(AttrSpec { origin: Some(0), as_path: Some(vec![Seg { t: 2, n: 1, base: 65102, asns: vec![] }]), ..Default::default() }.build());
+    let net = v4(10, 9, 0, 0, 16);
+    let path = table::Path { local_path_id: 1, source, attr: attrs.clone(), nexthop: Some(bgp::Nexthop::V4(Ipv4Addr::new(192, 0, 2, 7))) };
+    let update = table::NlriChange { family: packet::Family::IPV4, net: net.clone(), dest_id: 1, best_changed: true, any_changed: true, replaced_path_id: None, current_paths: Arc::new(vec![path]) };
+    let params = NeighborParams { remote_addr: receiver, role: table::PeerRole::Ebgp, local_asn: 65000, local_addr: local, confederation_id: 0, cluster_id: None, families: vec![packet::Family::IPV4], effective_max: if c.addpath { 2 } else { 1 }, export_policy: Some(policy) };
+    let got = catch(|| export_once(&update, &params)).map_err(|p| p.into_failure("process_nlri_change"))?;
+    let in_set = match c.set % 3 {
+        0 => receiver == peer_ip(1),
+        1 => receiver == peer_ip(0),
+        _ => receiver == peer_ip(2),
+    };
+    let rejected = in_set != c.invert;
+    let wit = |f: Failure| f.with("addpath", c.addpath).with("set", c.set % 3).with("invert", c.invert);
+    if rejected != got.reach.is_empty() {
+        return Err(wit(Failure::new("export-glue", format!("receiver {receiver} (Add-Path send: {}): statement 1 ({} neighbour set {}) {} for it, yet the route is {}", c.addpath, if c.invert { "INVERT" } else { "ANY" }, c.set % 3, if rejected { "holds: reject" } else { "does not hold" }, if got.reach.is_empty() { "not advertised" } else { "advertised" })).with("what", "disposition")));
+    }
+    if !rejected {
+        let want = match c.nh_action {
+            Some((k, x)) if k % 4 == 0 => nh_ip(x),
+            Some((k, _)) if k % 4 == 2 => receiver,
+            // "unchanged" keeps the received next hop instead of the eBGP default
+            Some((k, _)) if k % 4 == 3 => IpAddr::V4(Ipv4Addr::new(192, 0, 2, 7)),
+            _ => local,
+        };
+        let got_nh = got.reach[0].2.map(|n| n.addr());
+        if got_nh != Some(want) {
+            return Err(wit(Failure::new("export-glue", format!("receiver {receiver} (Add-Path send: {}): next-hop action {:?} must give {want}, the advertisement carries {got_nh:?}", c.addpath, c.nh_action)).with("what", "nexthop")));
+        }
+    }
+    Ok(CaseInfo::nt(c.addpath).class_if(rejected, "export-glue/rejected").class_if(!rejected, "export-glue/advertised"))
+}
+
+pub fn arb_glue_case() -> impl Strategy<Value = GlueCase> {
+    (0u8..2, any::<bool>(), 0u8..3, any::<bool>(), proptest::option::of((0u8..4, 0u8..4))).prop_map(|(receiver, addpath, set, invert, nh_action)| GlueCase { receiver, addpath, set, invert, nh_action })
+}
+
 pub fn run(r: &Run) {
     r.set_rule(RULE);
     r.assume("prefix / neighbor sets take ANY or INVERT only (the API rejects ALL for them); import programs carry no next-hop action (rejected at load time)");
@@ -1211,12 +1285,17 @@ pub fn run(r: &Run) {
     r.assume("ext-community sets use two-octet-AS route targets, large-community sets exact triples; RPKI conditions are covered by C12");
     r.prop("eval", r.tier.pick(120_000, 3_000_000), arb_eval_case, check_eval);
     r.prop("crud", r.tier.pick(40_000, 1_000_000), || arb_crud_case(r.tier.pick(25, 60)), check_crud);
+    r.assume(GLUE_RULE);
+    r.prop("export-glue", r.tier.pick(4_000, 40_000), arb_glue_case, check_glue);
 }
 
 pub fn replay(sub: &str, case: &Value) -> Result<CheckResult, String> {
     if sub == "crud" {
         let c: CrudCase = decode_case(case)?;
         return Ok(check_crud(&c));
+    }
+    if sub == "export-glue" {
+        return Ok(check_glue(&decode_case(case)?));
     }
     let c: Case = decode_case(case)?;
     Ok(check_eval(&c))
